@@ -1,4 +1,4 @@
-add("C13", "checks/c13_lexer.c", ["default-plain", "default-asan", "uchar-plain", "c89-plain", "lf-plain", "cr-plain", "mcu-plain"], ["default-plain", "default-asan", "uchar-plain", "uchar-asan", "c89-plain", "c89-asan", "os-plain", "lf-plain", "cr-plain", "mcu-plain", "mcu89-plain", "ndebug-plain"],
+add("C13", "checks/c13_lexer.c", ["default-plain", "default-asan", "uchar-plain", "c89-plain", "lf-plain", "cr-plain", "mcu-plain", "noinfo-plain"], ["default-plain", "default-asan", "uchar-plain", "uchar-asan", "c89-plain", "c89-asan", "os-plain", "lf-plain", "cr-plain", "mcu-plain", "mcu89-plain", "ndebug-plain", "noinfo-plain"],
     "a case is a block of 4096 consecutive strings (enum-class, enum-union), one (seed token, position) pair with all 256 byte values "
     "substituted/inserted (bytesweep), or one generated input (long, random); every string is handed to the recogniser once per placement "
     "(exact-size heap cell and end of a larger cell under ASan; inside a longer buffer with state.len cut at EVERY offset 0..L in both "
